@@ -19,6 +19,7 @@ package getty
 
 import (
 	"fmt"
+	getty "github.com/apache/dubbo-getty"
 	"sync"
 
 	gxtime "github.com/dubbogo/gost/time"
@@ -66,6 +67,20 @@ func (client *GettyRemotingClient) SendAsyncRequest(msg interface{}) error {
 		Body:       msg,
 	}
 	return client.gettyRemoting.SendAsync(rpcMessage, nil, client.asyncCallback)
+}
+
+// SendAsyncRequestOnSession sends a one-way request on the given session
+// instead of a session picked by the load balancer (what has to reach one
+// particular seata server: announcing the client on a session just opened).
+func (client *GettyRemotingClient) SendAsyncRequestOnSession(session getty.Session, msg interface{}) error {
+	rpcMessage := message.RpcMessage{
+		ID:         int32(client.idGenerator.Inc()),
+		Type:       message.GettyRequestTypeRequestOneway,
+		Codec:      byte(codec.CodecTypeSeata),
+		Compressor: 0,
+		Body:       msg,
+	}
+	return client.gettyRemoting.SendAsync(rpcMessage, session, client.asyncCallback)
 }
 
 func (client *GettyRemotingClient) SendAsyncResponse(msgID int32, msg interface{}) error {
